@@ -48,7 +48,7 @@ ASSUMPTIONS = [
     "MachineHasDisconnectedSubregion, MinimisationFailedError) end a case as "
     "rejected; on the easy class a mapping must be produced",
 ]
-FLOORS = {"probed_machine": 100, "mapping_simulated": 150, "packet_injected": 800,
+FLOORS = {"wrapper_without_monitor_reservation": 100, "wrapper_sdram_alignment": 100, "wrapper_own_resource_names": 50, "probed_machine": 100, "mapping_simulated": 150, "packet_injected": 800,
           "delivery_checked": 1500, "default_routed_hop": 100,
           "minimised_entry_hit": 100, "easy_must_map": 40}
 SHARDS = {"quick": 16, "thorough": 64}
@@ -429,26 +429,64 @@ def run(case, ctx):
             machine = par.build_machine(m)
             if case["path"] == "deprecated":
                 import warnings
+                own_mon = case["radius"] % 2 == 1
+                cd_w = cd if own_mon else [
+                    c for c in cd if c[:4] != ("reserve", "Cores", 0, 1)]
+                if case["seed"] % 3 == 0:
+                    # alignment asked for another resource as well: the
+                    # wrapper still aligns SDRAM to words by default
+                    cd_w = cd_w + [("align", "SRAM", 8)]
+                w_cons = par.build_constraints(cd_w)
+                w_vr, w_machine, names_ = vr, machine, {}
+                if case["seed"] % 4 == 1:
+                    # the caller's own names for cores and SDRAM
+                    ctx.hit("wrapper_own_resource_names")
+                    names_ = {rp.Cores: "processors", rp.SDRAM: ("mem", "sd")}
+                    ren = lambda d: {names_.get(k, k): v for k, v in d.items()}
+                    w_vr = collections.OrderedDict(
+                        (v, ren(r)) for v, r in vr.items())
+                    w_machine = machine.copy()
+                    w_machine.chip_resources = ren(machine.chip_resources)
+                    w_machine.chip_resource_exceptions = {
+                        xy: ren(r) for xy, r in
+                        machine.chip_resource_exceptions.items()}
+                    for c_ in w_cons:
+                        if getattr(c_, "resource", None) in names_:
+                            c_.resource = names_[c_.resource]
+                wkw = dict(place=place_fn, place_kwargs=pkw,
+                           route_kwargs=dict(radius=case["radius"]))
+                if names_:
+                    wkw.update(core_resource=names_[rp.Cores],
+                               sdram_resource=names_[rp.SDRAM])
+                align_sdram = True
                 with warnings.catch_warnings():
                     warnings.simplefilter("ignore")
-                    if case["radius"] % 2:
+                    if own_mon:
                         # the monitor reservation made by the caller
                         # instead of the wrapper
                         ctx.hit("wrapper_without_monitor_reservation")
+                        align_sdram = rng.random() < .5
                         placements, allocations, app_map, tables = wr.wrapper(
-                            vr, {v: "app" for v in vr}, nets, net_keys,
-                            machine, par.build_constraints(cd), False,
-                            rng.random() < .5, place=place_fn,
-                            place_kwargs=pkw,
-                            route_kwargs=dict(radius=case["radius"]))
+                            w_vr, {v: "app" for v in vr}, nets, net_keys,
+                            w_machine, w_cons, False, align_sdram, **wkw)
                     else:
                         placements, allocations, app_map, tables = wr.wrapper(
-                            vr, {v: "app" for v in vr}, nets, net_keys,
-                            machine, par.build_constraints(
-                                [c for c in cd
-                                 if c[:4] != ("reserve", "Cores", 0, 1)]),
-                            place=place_fn, place_kwargs=pkw,
-                            route_kwargs=dict(radius=case["radius"]))
+                            w_vr, {v: "app" for v in vr}, nets, net_keys,
+                            w_machine, w_cons, **wkw)
+                if names_:
+                    back = {v: k for k, v in names_.items()}
+                    allocations = {v: {back.get(k, k): sl
+                                       for k, sl in a.items()}
+                                   for v, a in allocations.items()}
+                if align_sdram:
+                    ctx.hit("wrapper_sdram_alignment")
+                    for v, a in allocations.items():
+                        sl = a.get(rp.SDRAM)
+                        check(sl is None or sl.stop <= sl.start or
+                              sl.start % 4 == 0,
+                              "wrapper-sdram-not-word-aligned",
+                              "%s: vertex %r got SDRAM %r (align_sdram left "
+                              "at its default)" % (what, v, sl))
                 unminimised = None
             else:
                 placements = place_fn(vr, nets, machine, constraints, **pkw)
